@@ -89,8 +89,11 @@ def observe(case):
     sentinels = [[901, [902]], "sentinel", [903]]
     nargs = max(ta, tb, ka, kb, 1) + (1 if m == "ß" else 0)
     args = [make_arg(rng) for _ in range(nargs)]
+    # interpreter flags that change how arguments are popped or tested (r: reversed pops, t: a list is truthy iff
+    # one of its items is); the frame rule holds under each of them
+    flagv = (seed // 8) % 3 if m else 0
     if m == "ß":
-        args[-1] = rng.choice([0, 1])
+        args[-1] = rng.choice([0, 1, [0, 0], [], [0, 2], [[]]])
     if key == "¨ẇ" and not m:
         args[-1] = rng.choice([0, 0, 1, 2, 3])
     # an entry below the arguments that shares state with one of them, as `:` (a lazy view of the
@@ -114,6 +117,13 @@ def observe(case):
         sentinels = sentinels + ([args[0]] if variant == 3 else [deep_copy(args[0])])
         alias_plain = plain
     ns = runner.fresh_ns(stack=[])
+    if flagv == 1:
+        ns["ctx"].reverse_flag = True
+    elif flagv == 2:
+        ns["ctx"].truthy_lists = True
+    cond = args[-1]
+    # truthiness of the condition as the documentation defines it (a list: non-empty; with flag t: some item truthy)
+    condtrue = bool(cond) if not isinstance(cond, list) else (any(bool(x) for x in cond) if flagv == 2 else len(cond) > 0)
     if garr_view is not None:
         # an entry below that an EARLIER element produced from interpreter state: the copy of the global array
         # that `¾` pushes (its real template is run; the entry is not looked at before the element under test runs,
@@ -134,7 +144,7 @@ def observe(case):
           "ids0": ids(stack),
           "vals0": [snapshot(x) for x in sentinels[:3]] + ([c08_tagged(alias_plain)] if alias_plain is not None else [])
                    + ([c08_tagged(garr_view)] if garr_view is not None else []) + [{"a": 1}] * nargs,
-          "ta": ta, "tb": tb, "pe": pe,
+          "ta": ta, "tb": tb, "pe": pe, "condtrue": bool(condtrue), "flagv": flagv,
           "topint": args[-1] if isinstance(args[-1], int) and not isinstance(args[-1], bool) and abs(args[-1]) < 1000 else -1,
           "strarg": isinstance(args[-1], str), "raised": "", "ids1": [], "vals1": []}
     keep_alive = list(stack)  # so that ids are not recycled
@@ -187,7 +197,7 @@ def main(tier):
         if not mc["ok"]:
             V.add("spec:MC_Machine:" + str(mc["violated"]), {"trace": tlc.counterexample(mc["out"])})
         obs = common.pool_map(observe, cs, initfn=common.import_repo, hard_timeout=30,
-                              on_timeout=lambda c: {"key": cps(c[1]), "opkey": [], "m": 0, "ka": 0, "kb": 0, "ta": 0, "tb": 0, "pe": False, "ids0": [], "vals0": [], "topint": -1,
+                              on_timeout=lambda c: {"key": cps(c[1]), "opkey": [], "m": 0, "ka": 0, "kb": 0, "ta": 0, "tb": 0, "pe": False, "condtrue": True, "flagv": 0, "ids0": [], "vals0": [], "topint": -1,
                                                     "strarg": False, "raised": "hang", "ids1": [], "vals1": []})
         verdicts, st = tlc.validate(s, "Trace_Frame", obs, cfg="Trace_Frame.cfg", chunk=3000)
     tally = {}
